@@ -4,13 +4,14 @@
 # runs the demonstration on the clean and on the changed tree, then the given checks against the changed tree.
 set -u
 SD="$(cd "$1" && pwd)"; shift
+ROOT="$(cd "$(dirname "$0")/.." && pwd)"   # the checkout this script belongs to (a worktree of /verif or /verif itself)
 WT=/tmp/try_seed_$$
 git -C /repo worktree add -q --detach $WT HEAD || exit 2
 cd $WT
 echo "== demo on unchanged tree"; /venv/bin/python $SD/demo.py > /tmp/try_seed_$$.clean.log 2>&1; echo "exit $?"
 git apply $SD/patch.diff || { echo "PATCH DOES NOT APPLY"; git -C /repo worktree remove --force $WT; exit 2; }
 echo "== demo on changed tree"; /venv/bin/python $SD/demo.py > /tmp/try_seed_$$.mut.log 2>&1; echo "exit $?"; tail -3 /tmp/try_seed_$$.mut.log
-cd /verif
+cd "$ROOT"
 for id in "$@"; do
   echo "== ./check $id against the changed tree"
   VERIF_REPO=$WT ./check $id 2>&1 | grep -E "VIOLATION|KNOWN-FINDING|BROKEN|tier=" | head -6
